@@ -628,6 +628,7 @@ func TestVerif_C43_ReadLoop(t *testing.T) {
 			isVote bool
 		}
 		var dedupSent []sent // earlier dedup-safe messages that may be repeated
+		var otherSent []sent // earlier small messages under tags that must never be de-duplicated
 		dedupSentVotes, dedupSentTx, dedupSentPlainAV := 0, 0, 0
 		var votes [][]byte   // msgpack votes generated so far
 		overLimitEnds, nearLimitDelivered, dupSuppressed, crossPeerDup, delivered := 0, 0, 0, 0, 0
@@ -688,7 +689,7 @@ func TestVerif_C43_ReadLoop(t *testing.T) {
 				exp.wantTag, exp.want = tag, prev.data
 				exp.dedupKey = c43Key(tag, prev.data)
 				exp.label = "repeat"
-			case kind == 2 && p.vp: // genuine votes on a compression-enabled connection
+			case (kind == 2 || kind == 7) && p.vp: // genuine votes on a compression-enabled connection
 				var v c42NVote
 				rng.Read(v.pf[:])
 				v.pf[0] |= 1
@@ -779,6 +780,12 @@ func TestVerif_C43_ReadLoop(t *testing.T) {
 					exp.suppress, exp.mustEnd = true, true
 					exp.label = "pp-zstd-bomb"
 				}
+			case (kind == 6 || kind == 8) && len(otherSent) > 0: // repeat a message of a tag that is not safe to de-duplicate: must be delivered again
+				prev := otherSent[rapid.IntRange(0, len(otherSent)-1).Draw(t, "otherDupOf")]
+				tag = prev.tag
+				src = &c43Source{seed: prev.raw.seed, size: prev.raw.size, zeroHead: prev.raw.zeroHead}
+				exp.deliver, exp.wantTag, exp.want = true, tag, prev.data
+				exp.label = "repeat-not-dedup-safe"
 			case kind == 5: // frame too short to carry a tag, or not binary
 				tag = ""
 				src.head = []byte("AV")[:rapid.IntRange(0, 1).Draw(t, "shortHead")]
@@ -804,7 +811,7 @@ func TestVerif_C43_ReadLoop(t *testing.T) {
 					eff = MaxMessageLength
 				}
 				var size uint64
-				switch rapid.IntRange(0, 9).Draw(t, "sizeKind") {
+				switch rapid.IntRange(0, 13).Draw(t, "sizeKind") {
 				case 0:
 					size = eff - 1
 				case 1:
@@ -946,6 +953,9 @@ func TestVerif_C43_ReadLoop(t *testing.T) {
 					}
 				}
 				delivered++
+				if exp.label == "plain" && exp.dedupKey == "" && !dedupSafeTag(m.Tag) && len(m.Data) > 0 && len(m.Data) <= 4096 && len(otherSent) < 8 {
+					otherSent = append(otherSent, sent{tag: m.Tag, data: exp.want, raw: src})
+				}
 				if exp.label == "at-limit" || exp.label == "pp-zstd-at-limit" {
 					nearLimitDelivered++
 				}
